@@ -370,9 +370,8 @@ func c11Exec(fsys *world.World, client int, op c11Op, clock *int64, rec func(c11
 
 func c11Run(f failer, cfg world.Cfg, c c11Case) {
 	live.J.Begin(hist.Case{Property: "C11", Cfg: cfg, Params: hist.Params{"c11": c}, Steps: []hist.Step{}})
-	if c.Procs > 0 {
-		defer runtime.GOMAXPROCS(runtime.GOMAXPROCS(c.Procs))
-	}
+	// (GOMAXPROCS is set per worker process by the driver, not switched inside the process:
+	// switching it between cases under the race detector crashed the Go runtime itself)
 	overlaps := 0
 	for _, sched := range c.Schedules {
 		probe := &world.Probe{}
@@ -529,7 +528,7 @@ func TestC11(t *testing.T) {
 	rapid.Check(t, func(t *rapid.T) {
 		cfg := hist.DrawCfg(t, 70, []int{1, 3, 20})
 		nclients := rapid.IntRange(2, 8).Draw(t, "clients")
-		c := c11Case{Procs: rapid.SampledFrom([]int{2, 16}).Draw(t, "gomaxprocs"), Rebuilt: rapid.IntRange(0, 1).Draw(t, "rebuilt") == 0}
+		c := c11Case{Procs: runtime.GOMAXPROCS(0), Rebuilt: rapid.IntRange(0, 1).Draw(t, "rebuilt") == 0}
 		shared := []string{"/s", "/s/d1", "/s/d2"}
 		c.Setup = []c11Op{{Kind: "mkdir", Path: "/s", Perm: 0755}, {Kind: "put", Path: "/s/base", Size: 700, Seed: 99}}
 		if rapid.Bool().Draw(t, "presetup") {
